@@ -105,12 +105,28 @@ Definition refits (e : entry) (fitted skip : bool) : bool :=
   else if String.eqb (e_meth e) "fit_quantile" then negb fitted || negb skip
   else e_fitting e.
 
+(* the actions before the first top-level MayRefit (None: there is none) *)
+Fixpoint prefix_before_refit (l : list action) : option (list action) :=
+  match l with
+  | [] => None
+  | MayRefit :: _ => Some []
+  | x :: r => option_map (cons x) (prefix_before_refit r)
+  end.
+(* an optimisation failure of a refit on the OTHER (valid) arguments may end the call before the traced argument is
+   validated: only when such a refit precedes, nothing before it stops the trace, and the loop that refits runs *)
+Definition refit_may_preempt (e : entry) (a : adesc) (fitted skip : bool) : bool :=
+  match prefix_before_refit (e_actions e) with
+  | Some p => negb skip && match run_list fitted skip a p with None => true | Some _ => false end
+  | None => false
+  end.
+
 Definition check_case (c : c11case) : bool :=
   match find_entry (c_cls c) (c_meth c) (c_arg c) with
   | None => false
   | Some e =>
       match run_trace (e_actions e) (c_desc c) (c_fitted c) (c_skip c), c_obs c with
       | RaisedVE, OVE => true
+      | RaisedVE, OOptErr => refit_may_preempt e (abstract (c_desc c)) (c_fitted c) (c_skip c)
       | RaisedVE, _ => false
       | RaisedAE, OAE => true
       | RaisedAE, _ => false
